@@ -7,8 +7,8 @@ Import ListNotations.
 Open Scope N_scope.
 
 (* [uesz]: UNKNOWN-ATTRIBUTES element size of the tree being modelled; [xfix]: XOR getter fixed *)
-Definition CUR_UNKNOWN_ESZ : N := 4.
-Definition CUR_XOR_FIXED : bool := false.
+Definition CUR_UNKNOWN_ESZ : N := 2.
+Definition CUR_XOR_FIXED : bool := true.
 
 Inductive setter : Type :=
 | SType (meth class : N)
